@@ -4,12 +4,51 @@
 use serde_json::{Map, Value, json};
 use std::cell::RefCell;
 use std::collections::BTreeMap;
-use std::io::Write;
 use std::panic::{AssertUnwindSafe, catch_unwind};
 use std::path::{Path, PathBuf};
 use std::time::Instant;
 
 pub const VERIF_ROOT: &str = "/verif";
+
+// ---------------------------------------------------------------------------------------------
+// own stdout: the library prints log lines to stdout (default logger); fd 1 is redirected to /dev/null at start
+// and everything the harness reports goes through `out!` to the saved descriptor.
+
+static OUT_FD: std::sync::atomic::AtomicI32 = std::sync::atomic::AtomicI32::new(1);
+
+pub fn capture_stdout() {
+    unsafe {
+        let saved = libc::dup(1);
+        let null = libc::open(c"/dev/null".as_ptr(), libc::O_WRONLY);
+        if saved >= 0 && null >= 0 {
+            libc::dup2(null, 1);
+            libc::close(null);
+            OUT_FD.store(saved, std::sync::atomic::Ordering::SeqCst);
+        }
+    }
+}
+
+pub fn write_out(text: &str) {
+    let fd = OUT_FD.load(std::sync::atomic::Ordering::SeqCst);
+    let bytes = text.as_bytes();
+    let mut off = 0;
+    while off < bytes.len() {
+        let n = unsafe { libc::write(fd, bytes[off..].as_ptr() as *const libc::c_void, bytes.len() - off) };
+        if n <= 0 {
+            break;
+        }
+        off += n as usize;
+    }
+}
+
+#[macro_export]
+macro_rules! out {
+    ($($arg:tt)*) => {{
+        let mut s = format!($($arg)*);
+        s.push('\n');
+        $crate::core::write_out(&s);
+    }};
+}
 
 #[derive(Clone, Copy, Debug, PartialEq, Eq)]
 pub enum Tier {
@@ -230,7 +269,7 @@ pub fn finish(ctx: &RunCtx, mut report: Report, started: Instant) -> i32 {
     let mut file_idx = 0usize;
     for (key, items) in by_key.iter() {
         if let Some(kf) = known.iter().find(|k| k.property == ctx.id && &k.key == key) {
-            println!("KNOWN-FINDING: property={} {} [{} occurrence(s); key={}]", ctx.id, kf.description, items.len(), key);
+            out!("KNOWN-FINDING: property={} {} [{} occurrence(s); key={}]", ctx.id, kf.description, items.len(), key);
             known_hits.push(json!({"key": key, "occurrences": items.len()}));
             continue;
         }
@@ -245,11 +284,11 @@ pub fn finish(ctx: &RunCtx, mut report: Report, started: Instant) -> i32 {
                 "seed": ctx.seed, "scenario": v.scenario,
             });
             let _ = std::fs::write(&path, serde_json::to_string_pretty(&doc).unwrap());
-            println!("VIOLATION property={} replay={}", ctx.id, path.display());
-            println!("  key={} :: {}", v.key, truncate(&v.what, 600));
+            out!("VIOLATION property={} replay={}", ctx.id, path.display());
+            out!("  key={} :: {}", v.key, truncate(&v.what, 600));
         }
         if items.len() > 3 {
-            println!("  (+{} more occurrence(s) of key={})", items.len() - 3, key);
+            out!("  (+{} more occurrence(s) of key={})", items.len() - 3, key);
         }
     }
 
@@ -284,7 +323,7 @@ pub fn finish(ctx: &RunCtx, mut report: Report, started: Instant) -> i32 {
         std::fs::write(&ev_path, serde_json::to_string_pretty(&evidence).unwrap()).expect("cannot write evidence");
     }
 
-    println!(
+    out!(
         "check={} tier={} exit={} wall_s={:.1} {}",
         ctx.id,
         ctx.tier.name(),
@@ -292,7 +331,6 @@ pub fn finish(ctx: &RunCtx, mut report: Report, started: Instant) -> i32 {
         started.elapsed().as_secs_f64(),
         summary_line(&report.coverage)
     );
-    let _ = std::io::stdout().flush();
     exit
 }
 
@@ -447,9 +485,63 @@ pub fn run_worker(exe: &Path, args: &[String], hash_seed: u64, shard: usize) -> 
     }
 }
 
+impl Report {
+    pub fn to_value(&self) -> Value {
+        json!({
+            "level": self.level,
+            "coverage": Value::Object(self.coverage.clone()),
+            "assumptions": self.assumptions,
+            "violations": self.violations.iter().map(|v| json!({"key": v.key, "what": v.what, "scenario": v.scenario})).collect::<Vec<_>>(),
+            "errors": self.errors,
+        })
+    }
+
+    pub fn from_value(v: &Value) -> Option<Report> {
+        Some(Report {
+            level: v.get("level")?.as_str()?.to_string(),
+            coverage: v.get("coverage")?.as_object()?.clone(),
+            assumptions: v.get("assumptions")?.as_array()?.iter().filter_map(|a| a.as_str().map(|s| s.to_string())).collect(),
+            violations: v
+                .get("violations")?
+                .as_array()?
+                .iter()
+                .filter_map(|x| Some(Violation::new(x.get("key")?.as_str()?, x.get("what")?.as_str()?, x.get("scenario")?.clone())))
+                .collect(),
+            errors: v.get("errors")?.as_array()?.iter().filter_map(|a| a.as_str().map(|s| s.to_string())).collect(),
+        })
+    }
+}
+
+/// Hash seed used for the deterministic workers of this run.
+pub fn hash_seed(ctx: &RunCtx) -> u64 {
+    std::env::var("VERIF_HASH_SEED").ok().and_then(|s| s.parse().ok()).unwrap_or(ctx.seed)
+}
+
+/// Runs all shards in deterministic worker processes; every worker prints exactly one line: its `Report` as JSON.
+/// Violations get shard coordinates attached so that they can be replayed.
+pub fn run_sharded_report(ctx: &RunCtx, level: &str, n_shards: usize, extra: &[String]) -> Report {
+    let hs = hash_seed(ctx);
+    let outputs = run_shards(ctx, n_shards, extra, hs);
+    let mut report = Report::new(level);
+    for out in outputs {
+        let parsed = out.lines.last().and_then(Report::from_value);
+        match parsed {
+            Some(mut r) if out.ok => {
+                for v in r.violations.iter_mut() {
+                    if let Some(obj) = v.scenario.as_object_mut() {
+                        obj.insert("_shard".into(), json!({"shard": out.shard, "of": n_shards, "hash_seed": hs, "extra": extra}));
+                    }
+                }
+                report.merge(r);
+            }
+            _ => report.error(format!("worker shard {}/{} failed: {}", out.shard, n_shards, out.stderr_tail)),
+        }
+    }
+    report.add_count("worker_shards", n_shards as u64);
+    report
+}
+
 /// Worker side: emits one JSON line.
 pub fn emit(value: &Value) {
-    let stdout = std::io::stdout();
-    let mut lock = stdout.lock();
-    let _ = writeln!(lock, "{}", serde_json::to_string(value).unwrap());
+    out!("{}", serde_json::to_string(value).unwrap());
 }
